@@ -12,7 +12,8 @@ COQ_HEADER = ("From Coq Require Import List NArith ZArith.\nFrom RV Require Impo
 RUN_EXPR = "Run.C36.run"
 RULE = ("random programs of the statement subset (rules, declarations, nested properties, @media, at-rules, @at-root, @if, "
         "@each, mixins with content blocks, @error) with loud comments (plain, multi-line, interpolated, `/*!` with and without "
-        "interpolation, literal `#` and `#` directly before / after an interpolation) in every "
+        "interpolation, literal `#` and `#` directly before / after an interpolation, texts with leading / trailing `#` `*` `/` `!` "
+        "and blanks, interpolation at the very start / end, interpolations that call an @error-raising function) in every "
         "statement position and `//` comments sprinkled between statements, compiled in both styles; distinct = distinct "
         "SCSS text; non-trivial = the run reaches at least one loud comment")
 EXHAUSTIVE = {"quick": False, "thorough": False}
